@@ -18,12 +18,15 @@ struct W {
   int batch = 7;              // read-back batch size
   uint32_t order = 1;         // seed for interleaving the columns' write_batch calls
   std::vector<std::vector<std::vector<int>>> parts;   // [rg][col] -> batch sizes (sum = rows)
-  std::vector<std::vector<int>> nolevels;             // [rg][col] -> OPTIONAL column written with def_levels == NULL (all rows present)
+  std::vector<std::vector<int>> nolevels;             // [rg][col] -> 1: OPTIONAL column written with def_levels == NULL (all rows present); 2: NULL only for some of the batches whose rows are all present
+  int opts = 0;               // writer options away from their defaults: bit0 write_statistics=false, bit1 write_page_index, bit2 write_bloom_filters, bit3 created_by set
+  int level = 0;              // compression_level
   std::vector<int> extra_nrg;                         // explicit new_row_group calls after group g (1) / also one more on the then-empty group (2)
 };
 inline CaseText ser(const W &w) {
   CaseText t;
   t.put_i("codec", w.codec); t.put_i("page_size", w.page_size); t.put_i("via_file", w.via_file); t.put_i("mode", w.mode); t.put_i("batch", w.batch); t.put_u("order", w.order);
+  t.put_i("opts", w.opts); t.put_i("level", w.level);
   t.put_ints("extra_nrg", w.extra_nrg);
   for (size_t g = 0; g < w.parts.size(); g++) { t.put_ints("nolev" + std::to_string(g), w.nolevels[g]); for (size_t c = 0; c < w.parts[g].size(); c++) t.put_ints("part" + std::to_string(g) + "_" + std::to_string(c), w.parts[g][c]); }
   gf::putSpec(t, w.fs);
@@ -31,6 +34,7 @@ inline CaseText ser(const W &w) {
 }
 inline W de(const CaseText &t) {
   W w; w.codec = (int)t.get_i("codec"); w.page_size = t.get_i("page_size"); w.via_file = t.get_i("via_file"); w.mode = (int)t.get_i("mode"); w.batch = (int)t.get_i("batch"); w.order = (uint32_t)t.get_u("order");
+  w.opts = (int)t.get_i("opts", 0); w.level = (int)t.get_i("level", 0);
   w.extra_nrg = t.get_ints<int>("extra_nrg");
   w.fs = gf::getSpec(t);
   size_t nl = pw::leaves(w.fs.root).size();
@@ -43,32 +47,41 @@ inline rc::Gen<W> genW() {
     W w;
     gf::Opts o; o.nested = false; o.int96 = false; o.dicts = false; o.codecs = false; o.stats = false; o.thrift_extras = false; o.layouts = false; o.crc = false; o.max_pages = 1;
     o.types = {pq::BOOLEAN, pq::INT32, pq::INT64, pq::FLOAT, pq::DOUBLE, pq::BYTE_ARRAY, pq::FIXED_LEN_BYTE_ARRAY};
-    o.max_cols = *rc::gen::weightedOneOf<int>({{8, rc::gen::just(6)}, {1, rc::gen::just(12)}});   // occasionally past the writer's initial column capacity of 8
+    o.max_cols = *rc::gen::weightedOneOf<int>({{16, rc::gen::just(6)}, {2, rc::gen::just(12)}, {1, rc::gen::just(17)}});   // occasionally past the writer's initial column capacity of 8, and around 15 (Thrift short-form list limit)
     w.fs.root = gf::genSchema(o);
     if (o.max_cols == 12) while (w.fs.root.kids.size() < 9) { pw::Node n = gf::leafNode("x" + std::to_string(w.fs.root.kids.size()), *irange(0, 1), pq::INT32, 0); w.fs.root.kids.push_back(n); }
+    if (o.max_cols == 17) { size_t want = (size_t)*irange(13, 17); while (w.fs.root.kids.size() < want) { pw::Node n = gf::leafNode("x" + std::to_string(w.fs.root.kids.size()), *irange(0, 1), *rc::gen::element<int>(pq::INT32, pq::INT64, pq::BOOLEAN), 0); w.fs.root.kids.push_back(n); } while (w.fs.root.kids.size() > want) w.fs.root.kids.pop_back(); }
     // unique, non-empty names
     for (size_t i = 0; i < w.fs.root.kids.size(); i++) w.fs.root.kids[i].name = "c" + std::to_string(i) + (i % 4 == 3 ? "\xc3\xa9" : "");
+    if (*irange(0, 7) == 0) {   // names with dots, prefix relations and lengths at the varint boundary of the Thrift string length
+      std::vector<std::string> special = {"id", "meta.id", "meta.rank", "c", "c1x", std::string(128, 'n'), std::string(127, 'm'), std::string(256, 'k'), std::string(129, 'j')};
+      for (size_t i = 0; i < w.fs.root.kids.size() && i < special.size(); i++) if (*irange(0, 1)) w.fs.root.kids[i].name = special[i];
+    }
     auto lv = pw::leaves(w.fs.root);
     w.codec = *rc::gen::element(0, 1, 2, 5, 6);   // UNCOMPRESSED, SNAPPY, GZIP, LZ4, ZSTD
     w.page_size = *rc::gen::element<int64_t>(64, 100, 256, 1024, 4096, 1 << 20);
     w.via_file = *rc::gen::arbitrary<bool>(); w.mode = *irange(0, 2); w.batch = *rc::gen::weightedOneOf<int>({{4, irange(1, 12)}, {1, irange(13, 400)}}); w.order = (uint32_t)*irange(1, 1 << 30);
+    w.opts = *rc::gen::weightedOneOf<int>({{3, rc::gen::just(0)}, {2, irange(0, 15)}}); w.level = *rc::gen::element(0, 0, 1, 3, 9, 19, -1, 100);
     int nrg = *rc::gen::weightedOneOf<int>({{1, rc::gen::just(0)}, {4, rc::gen::just(1)}, {4, irange(2, 4)}});
+    if (o.max_cols == 6 && *irange(0, 49) == 0) nrg = *irange(13, 17);   // around the Thrift short-form list limit of 15
     for (int g = 0; g < nrg; g++) {
       // rarely a row group large enough for level runs with three-byte run headers (>= 8192) and 16-bit page counters
-      size_t rows = (size_t)*rc::gen::weightedOneOf<int>({{25, rc::gen::just(0)}, {150, irange(1, 40)}, {50, irange(41, 300)}, {25, irange(1100, 3000)}, {g == 0 ? 10 : 0, rc::gen::element(8192, 8200, 16384, 16390, 20000, 33000, 40000, 66000)}});
+      size_t rows = (size_t)*rc::gen::weightedOneOf<int>({{25, rc::gen::just(0)}, {150, irange(1, 40)}, {50, irange(41, 300)}, {25, irange(1100, 3000)}});
+      if (g == 0 && nrg <= 4 && *irange(0, 24) == 0) rows = (size_t)*rc::gen::element(8192, 8200, 16384, 16390, 20000, 33000, 40000, 66000);
       if (rows >= 8192 && *irange(0, 1)) w.page_size = 1 << 20;
       w.fs.rg_rows.push_back((int64_t)rows);
       std::vector<pw::ChunkSpec> rg; std::vector<std::vector<int>> pc; std::vector<int> nl;
       for (auto &lf : lv) {
         pw::ChunkSpec cs;
-        bool nolev = lf.max_def > 0 && *irange(0, 7) == 0;
+        int nolevm = lf.max_def > 0 ? *rc::gen::weightedElement<int>({{6, 0}, {1, 1}, {2, 2}}) : 0;
+        bool nolev = nolevm == 1;
         if (lf.max_def) { auto p = nolev ? std::vector<uint8_t>(rows, 1) : *gf::presentGen(rows); for (auto x : p) cs.def.push_back(x); }
         cs.n = rows;
         size_t nn = 0; for (size_t i = 0; i < rows; i++) if (!lf.max_def || cs.def[i]) nn++;
         if (rows > 400) { Bytes proto = *gf::valueGen(lf.type, lf.type_length); for (size_t i = 0; i < nn; i++) { Bytes v = proto; if (!v.empty()) v[0] = (uint8_t)(v[0] + i); if (lf.type == pq::BOOLEAN) v[0] &= 1; cs.values.push_back(v); } }
         else cs.values = *rc::gen::container<std::vector<Bytes>>(nn, gf::valueGen(lf.type, lf.type_length));
         if (rows) { pw::PageSpec pg; pg.end = rows; cs.pages.push_back(pg); }
-        rg.push_back(cs); nl.push_back(nolev ? 1 : 0);
+        rg.push_back(cs); nl.push_back(nolevm);
         // partition of the rows into write_batch calls
         std::vector<int> part;
         int style = *irange(0, 4); size_t left = rows;
@@ -86,6 +99,23 @@ inline rc::Gen<W> genW() {
   });
 }
 
+inline void applyOptions(const W &w, carquet_writer_options_t &o) {
+  o.compression = (carquet_compression_t)w.codec; o.page_size = w.page_size; o.compression_level = w.level;
+  if (w.opts & 1) o.write_statistics = false;
+  if (w.opts & 2) o.write_page_index = true;
+  if (w.opts & 4) o.write_bloom_filters = true;
+  if (w.opts & 8) o.created_by = "verif writer history";
+}
+// does this write_batch call pass def_levels == NULL?  mode 1: always; mode 2: for about half of the batches whose rows are all
+// present (a caller that only materialises levels when a batch has a null)
+inline bool nullLevels(int mode, size_t k, size_t nn, uint32_t order, size_t g, size_t c, size_t batch_index) {
+  if (mode == 1) return true;
+  if (mode != 2 || nn != k) return false;
+  uint64_t h = (uint64_t)order * 0x9E3779B97F4A7C15ull + g * 1000003ull + c * 10007ull + batch_index * 101ull;
+  h ^= h >> 29; h *= 0xBF58476D1CE4E5B9ull; h ^= h >> 32;
+  return (h & 1) != 0;
+}
+
 struct Holder { std::vector<Bytes> keep; std::vector<std::vector<carquet_byte_array_t>> arrs; };
 // runs the write history; returns the file bytes (empty + err on a refused write)
 inline bool writeWith(const W &w, const std::vector<pw::Leaf> &lv, Bytes &bytes, std::string &err, bool &refused) {
@@ -99,7 +129,7 @@ inline bool writeWith(const W &w, const std::vector<pw::Leaf> &lv, Bytes &bytes,
     if (st != CARQUET_OK) { err = "schema_add_column failed"; refused = true; return false; }
   }
   carquet_writer_options_t o; carquet_writer_options_init(&o);
-  o.compression = (carquet_compression_t)w.codec; o.page_size = w.page_size;
+  applyOptions(w, o);
   std::string path = rd::tmpPath("out");
   FILE *fp = nullptr;
   carquet_writer_t *wr;
@@ -122,7 +152,7 @@ inline bool writeWith(const W &w, const std::vector<pw::Leaf> &lv, Bytes &bytes,
       std::vector<int16_t> dl;
       for (size_t i = 0; i < k; i++) { int d = lv[c].max_def ? cs.def[rowpos[c] + i] : 1; dl.push_back((int16_t)d); if (d) nn++; }
       Exact dlx((const uint8_t *)dl.data(), dl.size() * 2);
-      const int16_t *dlp = (lv[c].max_def && !w.nolevels[g][c]) ? dlx.as<int16_t>() : nullptr;
+      const int16_t *dlp = (lv[c].max_def && !nullLevels(w.nolevels[g][c], k, nn, w.order, g, c, nextb[c])) ? dlx.as<int16_t>() : nullptr;
       carquet_status_t st;
       if (lv[c].type == pq::BYTE_ARRAY) {
         std::vector<Exact *> hold; std::vector<carquet_byte_array_t> arr(nn ? nn : 1);
@@ -176,7 +206,7 @@ inline void runHistory(const W &w, const std::vector<pw::Leaf> &lv, WriteCtl &ct
   for (auto &lf : lv)
     if (carquet_schema_add_column(s, lf.path.back().c_str(), (carquet_physical_type_t)lf.type, nullptr, lf.max_def ? CARQUET_REPETITION_OPTIONAL : CARQUET_REPETITION_REQUIRED, lf.type == pq::FIXED_LEN_BYTE_ARRAY ? lf.type_length : 0) != CARQUET_OK) { ctl.any_nonok = true; ctl.first_failure = "schema_add_column"; return; }
   carquet_writer_options_t o; carquet_writer_options_init(&o);
-  o.compression = (carquet_compression_t)w.codec; o.page_size = w.page_size;
+  applyOptions(w, o);
   carquet_writer_t *wr;
   if (ctl.sink) wr = carquet_writer_create_file(ctl.sink, s, &o, &e);
   else { if (ctl.path.empty()) ctl.path = rd::tmpPath("out"); wr = carquet_writer_create(ctl.path.c_str(), s, &o, &e); }
@@ -198,7 +228,7 @@ inline void runHistory(const W &w, const std::vector<pw::Leaf> &lv, WriteCtl &ct
       size_t nn = 0;
       std::vector<int16_t> dl;
       for (size_t i = 0; i < k; i++) { int d = lv[c].max_def ? cs.def[rowpos[c] + i] : 1; dl.push_back((int16_t)d); if (d) nn++; }
-      const int16_t *dlp = (lv[c].max_def && !w.nolevels[g][c]) ? dl.data() : nullptr;
+      const int16_t *dlp = (lv[c].max_def && !nullLevels(w.nolevels[g][c], k, nn, w.order, g, c, nextb[c])) ? dl.data() : nullptr;
       carquet_status_t st;
       if (lv[c].type == pq::BYTE_ARRAY) {
         std::vector<Bytes> copy(cs.values.begin() + valpos[c], cs.values.begin() + valpos[c] + nn);
